@@ -95,16 +95,17 @@ def build_letters(tier="quick", dry=False):
     add("apply_3x5_range", lambda: focal.apply(_da(_base()), k35, red_range), core=True)
     add("apply_3x3_sumsq_i4", lambda: focal.apply(_da(_base(dtype="i4")), k33, red_sumsq), quick=False)
     add("mean_default", lambda: focal.mean(_da(_base())), core=True)
-    add("mean_p2_excl0", lambda: focal.mean(_da(np.where(_base() > 8, 0.0, _base())), passes=2, excludes=[0]))
+    add("mean_p2_excl0", lambda: focal.mean(_da(np.where(_base() > 8, 0.0, _base())), passes=2, excludes=[0]), quick=False)
     add("focal_stats_default", lambda: focal.focal_stats(_da(_base()), k33))
     add("focal_stats_max", lambda: focal.focal_stats(_da(_base()), k35, stats_funcs=["max"]), quick=False)
+    add("focal_stats_dup_names", lambda: focal.focal_stats(_da(_base()), k33, stats_funcs=["mean", "max", "sum", "mean", "range"]))
     add("hotspots_3x3", lambda: focal.hotspots(_da(_base()), k33))
     add("hotspots_3x5_dask", lambda: _fin(focal.hotspots(_da(_base(), CH), k35)), quick=False)
     add("convolution_3x5", lambda: convolution.convolution_2d(_da(_base()), k35 * 0.25), quick=False)
     # --- zonal -------------------------------------------------------------------------------------
     add("stats_default", lambda: zonal.stats(_da(_zones()), _da(_base())), core=True)
     add("stats_custom", lambda: zonal.stats(_da(_zones()), _da(_base()), stats_funcs={"rng": lambda z: z.max() - z.min()}), quick=False)
-    add("stats_ids_nodata", lambda: zonal.stats(_da(_zones()), _da(np.round(_base())), zone_ids=[3, 1], nodata_values=7))
+    add("stats_ids_nodata", lambda: zonal.stats(_da(_zones()), _da(np.round(_base())), zone_ids=[3, 1], nodata_values=7), quick=False)
     add("stats_dask", lambda: _fin(zonal.stats(_da(_zones(), CH), _da(_base(), CH))), quick=False)
     add("crosstab", lambda: zonal.crosstab(_da(_zones()), _da(_cats())))
     add("crosstab_pct_ids", lambda: zonal.crosstab(_da(_zones()), _da(_cats()), zone_ids=[1, 3], agg="percentage"), quick=False)
@@ -130,6 +131,8 @@ def build_letters(tier="quick", dry=False):
     # --- generators (global RNG) -------------------------------------------------------------------
     add("perlin_s5", lambda: xs.perlin(_da(np.zeros((5, 6)))), core=True)
     add("perlin_s6", lambda: xs.perlin(_da(np.zeros((5, 6))), seed=6))
+    add("perlin_s0", lambda: xs.perlin(_da(np.zeros((5, 6))), seed=0))                     # parameter at its boundary value
+    add("terrain_s0", lambda: xs.generate_terrain(_da(np.zeros((5, 6))), seed=0), quick=False)
     add("generate_terrain", lambda: xs.generate_terrain(_da(np.zeros((5, 6)))), quick=False)
     # seeded generators are functions of seed, shape AND extent: same shape, different windows of one full extent
     add("terrain_full_extent_ne", lambda: xs.generate_terrain(_da(np.zeros((5, 6))), x_range=(250, 500), y_range=(250, 500),
